@@ -47,6 +47,8 @@ pub struct ChainSim {
 	/// total fees of confirmed non-trusted transactions, per txid
 	pub fees: BTreeMap<Txid, u64>,
 	pub header_time: u32,
+	/// transactions dropped from the mempool because they (or an ancestor) conflict with a confirmed spend
+	pub evicted: std::collections::HashSet<Txid>,
 }
 
 pub fn genesis() -> Block {
@@ -66,6 +68,7 @@ impl ChainSim {
 			tx_store: HashMap::new(),
 			mempool: Vec::new(),
 			fees: BTreeMap::new(),
+			evicted: Default::default(),
 		}
 	}
 	pub fn height(&self) -> u32 {
@@ -118,6 +121,10 @@ impl ChainSim {
 				None => {
 					if let Some((sp, _)) = self.spent_by.get(&inp.previous_output) {
 						return Err(Reject::LostRace(inp.previous_output, *sp));
+					}
+					if self.evicted.contains(&inp.previous_output.txid) {
+						// the parent lost a race against a confirmed transaction
+						return Err(Reject::LostRace(inp.previous_output, inp.previous_output.txid));
 					}
 					return Err(Reject::UnknownInput(inp.previous_output));
 				},
@@ -278,16 +285,21 @@ impl ChainSim {
 			let confirmed = &self.confirmed;
 			let spent_by = &self.spent_by;
 			let utxos = &self.utxos;
+			let evicted = &mut self.evicted;
 			self.mempool.retain(|m| {
 				if confirmed.contains_key(&m.compute_txid()) {
 					return false;
 				}
-				m.input.iter().all(|i| {
+				let keep = m.input.iter().all(|i| {
 					if spent_by.contains_key(&i.previous_output) {
 						return false;
 					}
 					utxos.contains_key(&i.previous_output) || ids.contains(&i.previous_output.txid)
-				})
+				});
+				if !keep {
+					evicted.insert(m.compute_txid());
+				}
+				keep
 			});
 			if self.mempool.len() == before {
 				break;
